@@ -376,8 +376,12 @@ fn inputs(target: &str, large: bool) -> Vec<String> {
                     format!("<d{}><p{}>  <b{}>x</b>  </p><q>  </q></d>", a, b, c),
                     format!("<d{}> <p{}> t <b{}> </b></p>{}</d>", a, b, c, '\u{a0}'),
                     format!("<d{}><p{}><b{}>  </b><!--c-->  </p></d>", a, b, c),
+                    // fragments: text directly under the document node
+                    format!("F:  <d{}> <p{}> </p></d>\n<q{}> </q> ", a, b, c),
+                    format!("F: <d{}><p{}>x</p> </d> t <q{}> </q>", a, b, c),
                 ];
-                for d in docs { for start in 0..4 { v.push(format!("{}|{}", d, start)); } }
+                // every ordinary node of the tree as start node (at most 12 per shape)
+                for d in docs { for start in 0..12 { v.push(format!("{}|{}", d, start)); } }
             }}}
             v
         }
@@ -2112,12 +2116,14 @@ fn c18_strip_scope(input: &str) -> Option<String> {
     let doc = f[0];
     let start: usize = f[1].parse().ok()?;
     let mut xot = Xot::new();
-    let root = xot.parse(doc).ok()?;
-    let elements: Vec<_> = xot.descendants(root).filter(|n| xot.is_element(*n)).collect();
-    let start_node = *elements.get(start)?;
+    // "F:" marks a fragment: its document node may have text children
+    let root = if let Some(frag) = doc.strip_prefix("F:") { xot.parse_fragment(frag).ok()? } else { xot.parse(doc).ok()? };
+    // every ordinary node of the tree is tried as the start node: the document node, elements, text nodes, comments
+    let all: Vec<_> = xot.descendants(root).collect();
+    let start_node = *all.get(start)?;
     let space = xot.xml_space_name();
     let is_ws = |t: &str| t.chars().all(|c| c == ' ' || c == '\t' || c == '\r' || c == '\n');
-    // expected removals among the text nodes below start_node
+    // expected removals among the text nodes below (or at) start_node
     let texts: Vec<_> = xot.descendants(start_node).filter(|n| xot.is_text(*n)).collect();
     let mut expect_removed = Vec::new();
     for t in &texts {
@@ -2128,17 +2134,50 @@ fn c18_strip_scope(input: &str) -> Option<String> {
                 if let Some(v) = xot.attributes(anc).get(space) { preserve = v == "preserve"; break; }
             }
         }
-        let parent = xot.parent(*t).unwrap();
-        let sibling_content = xot.children(parent).any(|c| c != *t && xot.text_str(c).map(|s| !is_ws(s)).unwrap_or(false));
+        let sibling_content = match xot.parent(*t) {
+            Some(parent) => xot.children(parent).any(|c| c != *t && xot.text_str(c).map(|s| !is_ws(s)).unwrap_or(false)),
+            None => false,
+        };
         expect_removed.push(is_ws(txt) && !preserve && !sibling_content);
     }
-    let before_all: Vec<_> = xot.descendants(root).collect();
+    let describe = |xot: &Xot, n: xot::Node| -> String {
+        if let Some(t) = xot.text_str(n) { return format!("T{:?}", t); }
+        if let Some(c) = xot.comment_str(n) { return format!("C{:?}", c); }
+        if let Some(e) = xot.element(n) {
+            let mut at: Vec<String> = xot.attributes(n).iter().map(|(k, v)| format!("{}={:?}", xot.local_name_str(k), v)).collect();
+            at.sort();
+            return format!("E{}[{}]^{:?}", xot.local_name_str(e.name()), at.join(","), xot.parent(n));
+        }
+        format!("{:?}", xot.value_type(n))
+    };
+    let before: Vec<(xot::Node, String, Option<xot::Node>)> = all.iter().map(|n| (*n, describe(&xot, *n), xot.parent(*n))).collect();
     xot.remove_insignificant_whitespace(start_node);
+    let what = if doc.starts_with("F:") { "fragment" } else { "document" };
     for (t, exp) in texts.iter().zip(expect_removed.iter()) {
         if xot.is_removed(*t) != *exp {
-            return Some(format!("{:?}, called on element #{}: a text node is {} but the definition says {}", doc, start, if xot.is_removed(*t) { "removed" } else { "kept" }, if *exp { "remove" } else { "keep" }));
+            return Some(format!("{} {:?}, called on node #{} ({:?}): a text node is {} but the definition says {}", what, doc, start, xot.value_type(start_node), if xot.is_removed(*t) { "removed" } else { "kept" }, if *exp { "remove" } else { "keep" }));
         }
     }
-    for n in before_all { if !texts.contains(&n) && xot.is_removed(n) { return Some(format!("{:?}, called on element #{}: a node that is not a text node below the start node was removed", doc, start)); } }
+    for n in &all { if !texts.contains(n) && xot.is_removed(*n) { return Some(format!("{} {:?}, called on node #{}: a node that is not a text node below the start node was removed", what, doc, start)); } }
+    // every other node, value and order is untouched
+    let gone: Vec<xot::Node> = texts.iter().zip(expect_removed.iter()).filter(|(_, e)| **e).map(|(t, _)| *t).collect();
+    let kept: Vec<&(xot::Node, String, Option<xot::Node>)> = before.iter().filter(|(n, _, _)| !gone.contains(n)).collect();
+    if !xot.is_removed(root) {
+        let after: Vec<_> = xot.descendants(root).collect();
+        if after.len() != kept.len() || after.iter().zip(kept.iter()).any(|(a, k)| *a != k.0) {
+            return Some(format!("{} {:?}, called on node #{}: the remaining nodes are not the old ones in the old order", what, doc, start));
+        }
+        for (n, d, p) in kept.iter().map(|k| (k.0, &k.1, k.2)) {
+            if &describe(&xot, n) != d || xot.parent(n) != p { return Some(format!("{} {:?}, called on node #{}: a remaining node changed ({} -> {})", what, doc, start, d, describe(&xot, n))); }
+        }
+        // a second call changes nothing
+        if !xot.is_removed(start_node) {
+            xot.remove_insignificant_whitespace(start_node);
+            let again: Vec<_> = xot.descendants(root).collect();
+            if again != after || after.iter().any(|n| xot.is_removed(*n)) {
+                return Some(format!("{} {:?}, called on node #{}: a second call changed the tree", what, doc, start));
+            }
+        }
+    }
     None
 }
